@@ -211,6 +211,7 @@ type Interp struct {
 	breaks      []*brk
 	continues   []*brk
 	fellThrough bool
+	contGuard   string // set by execIf: guard under which the rest of the enclosing block runs
 	curLit      *ast.FuncType
 }
 
